@@ -50,6 +50,8 @@ PROPS = {
              "regex metacharacters in names, odd include locations, timestamps), every single-node mutation of a maximal well-formed Taskfile (a quarter per run in the quick tier, all in the thorough tier), "
              "the same mutations and random deviations applied to an INCLUDED Taskfile reached directly, flattened and at depth 2 (Tasks.Merge deep-copies every field: a null entry in every list position is taken in two of the four shapes per quick run, the other mutations rotate; all of them in the thorough tier), "
              "(inc-options) includes whose options name tasks that exist in the included file: excludes: of existing tasks (default among them), aliases, internal, vars, a root task shadowing the namespace, depth 1 and 2, flattened or not; "
+             "(inc-optional) optional includes whose Taskfile exists but cannot be used (tasks: 42, no version, wrong kinds, dotenv, old version, missing inner include as trees; empty file, syntax error, comment only, binary, CR line ends as bytes), plain / in a sub-directory / internal / flatten / excludes+aliases; the include shapes of the mutation families also carry optional: true, "
+             "(expand) strings for execext.ExpandLiteral / ExpandFields from a hostile alphabet (shell comments, blanks only, $VAR, ${...}, ~, quotes, backslashes, ;|>&, globs) as task dir, include location, include dir, dotenv path, sources/generates glob, literally and through template variables (global, task level, command line OUT=#1, default filter); the random generator draws dirs, dotenv paths, globs and include locations from the same pool, "
              "(reader) well-formed deep include chains (depth 3-12, also flattened) and wide / wide-and-nested trees (4-12 siblings, each with includes of its own): reading must terminate; a deadline hit while every goroutine of the child is blocked is an impl_failure of kind deadlock (no retry), "
              "(concurrency) valid Taskfiles with 50-160 wildcard tasks whose first lookups happen at once (a task with that many wildcard-resolved deps, Run with Parallel, and the CLI with --parallel): a fatal error of the Go runtime ends the child process and is an impl_failure of kind fatal, "
              "serialised to YAML and run in-process through the REAL yaml.Unmarshal into ast.Taskfile -> Executor.Setup -> GetTask/FastCompiledTask/CompiledTask of every task and of a few requested names "
@@ -70,9 +72,9 @@ PROPS = {
             "run-time behaviour beyond the guards of RunTask (platform / requires) is not modelled; sites reachable only after unmodelled checks are predicted as 'may'",
         ],
         trusted=[
-            "modelled as oracles, not verified: gopkg.in/yaml.v3 (parser, tag resolution, generic decoding rules as transcribed in Decode/Model.v), text/template + sprig, regexp, chroma, chainguard-dev/git-urls, semver, time.ParseDuration",
+            "modelled as oracles, not verified: mvdan.cc/sh's word parser (o_words: how many shell words a string is), gopkg.in/yaml.v3 (parser, tag resolution, generic decoding rules as transcribed in Decode/Model.v), text/template + sprig, regexp, chroma, chainguard-dev/git-urls, semver, time.ParseDuration",
             "the driver's rendering of node trees to YAML (flow style, double-quoted strings, untagged scalars) and its panic-signature extraction from Go stack traces",
-            "extract/facts_decode.go: syntactic guard detection (len check, nil comparison in the range loop, QuoteMeta / MustCompile calls, clamp shape of NewSnippet)",
+            "extract/facts_decode.go: syntactic guard detection (len check in Var.UnmarshalYAML / NewGitNode / ExpandLiteral, nil-receiver test of the DeepCopy methods, nil comparison in the range loop, QuoteMeta / MustCompile calls, clamp shape of NewSnippet)",
         ],
     ),
 }
